@@ -164,11 +164,23 @@ Proof.
   destruct c as [e | me e].
   - step_io Hs; cbn [sh io wk ipc] in *.
     all: try (frame_io HL1).
-    all: match goal with |- ?G => idtac "IOGOAL" G end.
+    all: destruct HL1 as [Hu Hq Hqo Hqr Hor Hcv Hc2 Hsc Hat Hh]; l0_facts HL0; cbn [sh io wk ipc] in *.
+    all: split; cbn [sh io wk ipc io_handing is_atacq]; intros.
+    all: fin.
+    all: match goal with |- ?G => idtac "IOGOAL" G end; repeat match goal with H : ?T |- _ => match T with params => fail 1 | shared => fail 1 | nat => fail 1 | bool => fail 1 | _ => idtac "   " H ":" T; revert H end end.
     all: admit.
   - step_wk Hs; cbn [sh io wk ipc] in *.
     all: try (frame_wk HL1 me Hw).
-    all: match goal with |- ?G => idtac "WKGOAL" G end.
+    all: destruct HL1 as [Hu Hq Hqo Hqr Hor Hcv Hc2 Hsc Hat Hh].
+    all: pose proof (Hu me) as Hu_me; pose proof (fun k => Hu k me) as Hu_me';
+         pose proof (Hor me) as Hor_me; pose proof (Hc2 me) as Hc2_me; pose proof (Hsc me) as Hsc_me.
+    all: destruct HL0 as [[R1 R2] [O1 O2] [D1 D2]].
+    all: pose proof (R2 me) as R2m; pose proof (O2 me) as O2m; pose proof (D2 me) as D2m.
+    all: cbn [sh io wk ipc] in *; rewrite Hw in *; cbn [wpc] in *.
+    all: split; cbn [sh io wk ipc io_handing is_atacq]; intros.
+    all: upd_hyps; upd_goal me.
+    all: fin.
+    all: match goal with |- ?G => idtac "WKGOAL" G end; repeat match goal with H : ?T |- _ => match T with params => fail 1 | shared => fail 1 | nat => fail 1 | bool => fail 1 | _ => idtac "   " H ":" T; revert H end end.
     all: admit.
 Admitted.
 End Step.
